@@ -413,12 +413,18 @@ def check_prog(prog, builder, seed=0, twin=False, oracle_fn=None, label="", extr
             try:
                 pert = _perturb(e_)
                 tv, _, _ = engine.check_valid(hyps, z3.And(sv_eq_formula(g, pert), *conj[1:]), timeout_ms)
+                if tv == "unsat" and c.defined and engine.hyps_satisfiable(hyps, timeout_ms) == "unsat" and \
+                        engine.hyps_satisfiable(c.hyps(with_defined=False), timeout_ms) == "sat":
+                    # the definedness conditions alone are contradictory: the program has no defined value at any
+                    # input (e.g. x / std over a single element); nothing to decide, and not a vacuous harness
+                    out.update(status="declined", detail="undefined at every input: %s" % sorted({t for _, t in c.defined})[:4])
+                    return out
                 out["twin"] = tv
             except Unsupported:
                 out["twin"] = "n/a"
         # concolic cross-check: symbolic result under the pre-run's concrete leaf values == concrete result
         if concolic and len(paths) == 1:
-            bad = _concolic(prog, leaves, env, cleaves, cenv, cells, cres, pred_inputs)
+            bad = _concolic(prog, leaves, env, cleaves, cenv, cells, cres, pred_inputs, defined=[d for d, _ in c.defined])
             if bad:
                 out.update(status="gap", detail="concolic mismatch (numpy model / stub wrong?): %s" % (bad,))
                 return out
@@ -565,7 +571,7 @@ def _replay_range(prog, builder, leaves, env, pred_inputs, pred_output, model):
     return None
 
 
-def _concolic(prog, leaves, env, cleaves, cenv, cells, cres, pred_inputs, max_cells=24):
+def _concolic(prog, leaves, env, cleaves, cenv, cells, cres, pred_inputs, max_cells=24, defined=()):
     """evaluate symbolic result cells under the pre-run's concrete leaf values; compare with the concrete result"""
     pairs = []
     for name, arr in list(leaves.items()) + list(env.items()):
@@ -588,6 +594,12 @@ def _concolic(prog, leaves, env, cleaves, cenv, cells, cres, pred_inputs, max_ce
         ground = bind_reals(cres, cenv)
     except Exception:
         return None
+    for d in defined:      # the concrete point lies outside the domain of definition (e.g. an integer division by zero)
+        try:
+            if z3.is_false(z3.simplify(z3.substitute(d, *pairs))):
+                return None
+        except z3.Z3Exception:
+            return None
     for pt, i, g, e_ in cells[:max_cells]:
         g = SV.lift(g)
         try:
